@@ -75,6 +75,14 @@ static int round_read(int r){ // k reads + maybe a barrier on one channel fed by
   dispatch_io_read(ch,0,10,q,^(bool done, dispatch_data_t d, int err){ (void)d; if(done){ e2=err; n2++; dispatch_semaphore_signal(s2);} });
   if(dispatch_semaphore_wait(s2,dispatch_time(DISPATCH_TIME_NOW,10ll*1000000000ll))) fail("operation on a closed channel never completed: round",r,0,0);
   else if(e2!=ECANCELED) fail("operation on a closed channel completed with another error than ECANCELED: round/err",r,e2,0);
+  // ... also the degenerate ones: a read of length 0, a write of the empty data object, a one-byte write
+  for(int v=0; v<3 && !viol; v++){ dispatch_semaphore_t s3=dispatch_semaphore_create(0); __block int e3=-1;
+    dispatch_io_handler_t h3=^(bool done, dispatch_data_t d, int err){ (void)d; if(done){ e3=err; dispatch_semaphore_signal(s3);} };
+    if(v==0) dispatch_io_read(ch,0,0,q,h3); else if(v==1) dispatch_io_write(ch,0,dispatch_data_empty,q,h3);
+    else { dispatch_data_t one=dispatch_data_create("x",1,NULL,DISPATCH_DATA_DESTRUCTOR_DEFAULT); dispatch_io_write(ch,0,one,q,h3); dispatch_release(one); }
+    if(dispatch_semaphore_wait(s3,dispatch_time(DISPATCH_TIME_NOW,10ll*1000000000ll))) fail("operation on a closed channel never completed: round/variant",r,v,0);
+    else if(e3!=ECANCELED) fail("operation scheduled on a closed channel completed with another error than ECANCELED: round/variant (0 read of length 0, 1 write of empty data, 2 one-byte write)/err",r,v,e3);
+    dispatch_release(s3); }
   dispatch_release(ch);
   if(dispatch_semaphore_wait(cs,dispatch_time(DISPATCH_TIME_NOW,10ll*1000000000ll))) fail("cleanup handler never ran: round",r,0,0);
   usleep(2000); if(cleanup!=1) fail("cleanup handler count != 1: round/count",r,cleanup,0);
